@@ -61,7 +61,8 @@ CONSTANTS
   SlowScan,            \* subset of BOOLEAN: may the start-up share scan (shares.scan_on_start) be slow,
                        \* i.e. still in flight when the application goes on (login, stop)
   Env,                 \* which optional environment actions are on: subset of
-                       \* {"exec", "peerin", "userdisc", "midburst"} (midburst = stop / disconnect inside the burst)
+                       \* {"exec", "peerin", "userdisc", "midburst", "parent"} (midburst = stop / disconnect
+                       \* inside the burst; parent = a distributed parent may be found and lost)
   FixAutoJoin, FixDistStopped, FixWatchdogStopped, FixCancelFirst, FixTimersStopped, FixStaleInit, FixSelfAwait,
   FixQueueOnce, FixScanStopped
 
@@ -107,6 +108,12 @@ FInvites(c) == <<"invites", B(c.invites)>>
 FLevel      == <<"level", "0">>
 FRoot       == <<"root", "me">>
 FPSearch    == <<"psearch", "1">>
+
+\* the branch position with a live parent (the scripted parent is a branch root: level 0, root itself)
+PLevel   == <<"level", "1">>
+PRoot    == <<"root", "pp">>
+PPSearch == <<"psearch", "0">>
+WithParent(f) == CASE f = FLevel -> PLevel [] f = FRoot -> PRoot [] f = FPSearch -> PPSearch [] OTHER -> f
 
 \* What the statement says the server must have been told after a successful login.
 Expected(c) ==
@@ -183,12 +190,14 @@ VARIABLES
   epi,        \* last loss episode: [had |-> a session existed, n |-> SessionDestroyed events]
   watchdog,   \* "off" | "idle" | "sleeping" | "connecting"
   losses, logins, cfails,     \* budgets
+  parent,     \* a live distributed parent link exists (a peer accepted as parent, its connection open)
+  lparent,    \* ... at the moment of the last successful login
   lastExec,   \* last execute(): [res |-> "none" | "sent" | "refused", sess |-> session at the call]
   bg,         \* live background activities (kinds)
   open,       \* open connections: "server", "clear", "obf" (listeners), "peer"
   derived     \* server-derived state that is not empty (subset of DerivedKinds)
 
-mvars == <<cfg, plan, phase, spc, srv, reason, session, lpc, sent, epi, watchdog, losses, logins, cfails, lastExec>>
+mvars == <<cfg, plan, parent, lparent, phase, spc, srv, reason, session, lpc, sent, epi, watchdog, losses, logins, cfails, lastExec>>
 ovars == <<bg, open, derived>>
 vars  == <<mvars, ovars>>
 
@@ -204,6 +213,7 @@ Init ==
   /\ watchdog = "off"
   /\ losses = 0 /\ logins = 0 /\ cfails = 0
   /\ lastExec = [res |-> "none", sess |-> FALSE]
+  /\ parent = FALSE /\ lparent = FALSE
   /\ bg = {} /\ open = {} /\ derived = {}
 
 ----------------------------------------------------------------------------
@@ -213,7 +223,7 @@ StartCore ==
   /\ phase = "new"
   /\ phase' = "started" /\ srv' = "connected"
   /\ watchdog' = IF cfg.reconnect THEN "idle" ELSE "off"
-  /\ UNCHANGED <<cfg, plan, spc, reason, session, lpc, sent, epi, losses, logins, cfails, lastExec>>
+  /\ UNCHANGED <<cfg, plan, parent, lparent, spc, reason, session, lpc, sent, epi, losses, logins, cfails, lastExec>>
 Start ==
   /\ StartCore
   /\ open' = cfg.ports \cup {"server"} /\ UNCHANGED derived
@@ -230,19 +240,21 @@ LoginCore(who, mode) ==
   /\ \/ who = "user" /\ lpc = "idle" /\ logins < MaxLogins /\ logins' = logins + 1
      \/ who = "auto" /\ lpc = "auto" /\ UNCHANGED logins
   /\ IF mode = "ok"
-       THEN session' = TRUE /\ lpc' = "burst" /\ sent' = {}
-       ELSE UNCHANGED <<session, sent>> /\ lpc' = "idle"
-  /\ UNCHANGED <<cfg, plan, phase, spc, srv, reason, epi, watchdog, losses, cfails, lastExec>>
+       THEN session' = TRUE /\ lpc' = "burst" /\ sent' = {} /\ lparent' = parent
+       ELSE UNCHANGED <<session, sent, lparent>> /\ lpc' = "idle"
+  /\ UNCHANGED <<cfg, plan, parent, phase, spc, srv, reason, epi, watchdog, losses, cfails, lastExec>>
 Login(who, mode) == LoginCore(who, mode) /\ UNCHANGED ovars
 
 \* one send of the post-login burst reaches the server
 AdvertiseCore(f) ==
   /\ lpc = "burst" /\ session /\ srv = "connected"
   /\ sent' = sent \cup {f}
-  /\ UNCHANGED <<cfg, plan, phase, spc, srv, reason, session, lpc, epi, watchdog, losses, logins, cfails, lastExec>>
+  /\ UNCHANGED <<cfg, plan, parent, lparent, phase, spc, srv, reason, session, lpc, epi, watchdog, losses, logins, cfails, lastExec>>
 \* user/manager.py:467-482 as pinned (FixStaleInit = FALSE): workers left by a session that was lost
 \* inside its burst already carry the friend flags, track_friends() requests nothing
-Todo == SelectSeq(plan.burst, LAMBDA f : ~("strack" \in bg /\ f[1] = "adduser"))
+Todo0 == SelectSeq(plan.burst, LAMBDA f : ~("strack" \in bg /\ f[1] = "adduser"))
+\* distributed.py:255-272: the branch values told are those of the parent the client has at the login
+Todo == [i \in 1..Len(Todo0) |-> IF lparent THEN WithParent(Todo0[i]) ELSE Todo0[i]]
 BurstLeft == Cardinality(sent) < Len(Todo)
 Advertise == BurstLeft /\ AdvertiseCore(Todo[Cardinality(sent) + 1]) /\ UNCHANGED ovars
 
@@ -251,7 +263,7 @@ Advertise == BurstLeft /\ AdvertiseCore(Todo[Cardinality(sent) + 1]) /\ UNCHANGE
 BurstEndCore ==
   /\ lpc = "burst" /\ session /\ srv = "connected"
   /\ lpc' = "idle"
-  /\ UNCHANGED <<cfg, plan, phase, spc, srv, reason, session, sent, epi, watchdog, losses, logins, cfails, lastExec>>
+  /\ UNCHANGED <<cfg, plan, parent, lparent, phase, spc, srv, reason, session, sent, epi, watchdog, losses, logins, cfails, lastExec>>
 BurstEnd ==
   /\ ~BurstLeft /\ BurstEndCore
   /\ bg' = (bg \ {"strack"}) \cup {"reader", "track"} /\ derived' = DerivedKinds /\ UNCHANGED open
@@ -275,7 +287,7 @@ ServerLossCore(kind, emitted) ==
   /\ phase = "started" /\ srv = "connected" /\ lpc # "auto"
   /\ kind \in LossKinds /\ losses < MaxLosses /\ losses' = losses + 1
   /\ CloseCore(ReasonOf(kind), emitted)
-  /\ UNCHANGED <<cfg, plan, phase, spc, sent, logins, cfails, lastExec>>
+  /\ UNCHANGED <<cfg, plan, parent, lparent, phase, spc, sent, logins, cfails, lastExec>>
 ServerLoss(kind) == ServerLossCore(kind, IF session THEN 1 ELSE 0) /\ CloseObs
 
 \* user/manager.py:712-719 as pinned: the tracking manager's CLOSED handler awaits the tracking
@@ -288,7 +300,7 @@ ServerLossStuck(kind) ==
   /\ srv' = "closed" /\ reason' = ReasonOf(kind)
   /\ epi' = [had |-> TRUE, n |-> 0]
   /\ watchdog' = IF watchdog = "off" THEN "off" ELSE "sleeping"
-  /\ UNCHANGED <<cfg, plan, phase, spc, session, lpc, sent, logins, cfails, lastExec>>
+  /\ UNCHANGED <<cfg, plan, parent, lparent, phase, spc, session, lpc, sent, logins, cfails, lastExec>>
   /\ open' = open \ {"server"} /\ UNCHANGED <<bg, derived>>
 
 \* the application disconnects from the server itself (network.py:292 disconnect_server)
@@ -296,34 +308,34 @@ UserDisconnectCore(emitted) ==
   /\ phase = "started" /\ srv = "connected" /\ lpc # "auto"
   /\ "userdisc" \in Env /\ (lpc = "burst" => "midburst" \in Env)
   /\ CloseCore("requested", emitted)
-  /\ UNCHANGED <<cfg, plan, phase, spc, sent, losses, logins, cfails, lastExec>>
+  /\ UNCHANGED <<cfg, plan, parent, lparent, phase, spc, sent, losses, logins, cfails, lastExec>>
 UserDisconnect == UserDisconnectCore(IF session THEN 1 ELSE 0) /\ CloseObs
 
 \* network.py:377-403 the watchdog: sleep(reconnect.timeout), connect_server()
 WatchdogWakeCore ==
   /\ watchdog = "sleeping" /\ srv = "closed"
   /\ watchdog' = "connecting" /\ srv' = "connecting"
-  /\ UNCHANGED <<cfg, plan, phase, spc, reason, session, lpc, sent, epi, losses, logins, cfails, lastExec>>
+  /\ UNCHANGED <<cfg, plan, parent, lparent, phase, spc, reason, session, lpc, sent, epi, losses, logins, cfails, lastExec>>
 WatchdogWake == WatchdogWakeCore /\ UNCHANGED ovars
 
 ReconnectOkCore ==
   /\ watchdog = "connecting" /\ srv = "connecting"
   /\ srv' = "connected" /\ watchdog' = "idle" /\ lpc' = "auto"
-  /\ UNCHANGED <<cfg, plan, phase, spc, reason, session, sent, epi, losses, logins, cfails, lastExec>>
+  /\ UNCHANGED <<cfg, plan, parent, lparent, phase, spc, reason, session, sent, epi, losses, logins, cfails, lastExec>>
 ReconnectOk == ReconnectOkCore /\ open' = open \cup {"server"} /\ bg' = bg \cup {"ping"} /\ UNCHANGED derived
 
 ReconnectFailCore ==
   /\ watchdog = "connecting" /\ srv = "connecting"
   /\ cfails < MaxConnFail /\ cfails' = cfails + 1
   /\ srv' = "closed" /\ reason' = "connect_failed" /\ watchdog' = "sleeping"
-  /\ UNCHANGED <<cfg, plan, phase, spc, session, lpc, sent, epi, losses, logins, lastExec>>
+  /\ UNCHANGED <<cfg, plan, parent, lparent, phase, spc, session, lpc, sent, epi, losses, logins, lastExec>>
 ReconnectFail == ReconnectFailCore /\ UNCHANGED ovars
 
 \* client.py:268-283 execute(): refused iff there is no session
 ExecuteCore ==
   /\ phase = "started" /\ lastExec.res = "none" /\ lpc = "idle" /\ "exec" \in Env
   /\ lastExec' = [res |-> IF session THEN "sent" ELSE "refused", sess |-> session]
-  /\ UNCHANGED <<cfg, plan, phase, spc, srv, reason, session, lpc, sent, epi, watchdog, losses, logins, cfails>>
+  /\ UNCHANGED <<cfg, plan, parent, lparent, phase, spc, srv, reason, session, lpc, sent, epi, watchdog, losses, logins, cfails>>
 Execute == ExecuteCore /\ UNCHANGED ovars
 
 \* client.py:138-156 stop() spans time.  First stretch: network.disconnect() cancels its tasks
@@ -340,7 +352,8 @@ StopBeginCore(emitted) ==
   /\ session' = FALSE /\ lpc' = "idle"
   /\ watchdog' = IF (FixWatchdogStopped /\ FixCancelFirst) \/ srv \in {"connected", "connecting"}
                   THEN "off" ELSE watchdog
-  /\ UNCHANGED <<cfg, plan, sent, losses, logins, cfails, lastExec>>
+  /\ parent' = FALSE
+  /\ UNCHANGED <<cfg, plan, lparent, sent, losses, logins, cfails, lastExec>>
 StopBegin ==
   /\ StopBeginCore(IF session THEN 1 ELSE 0)
   /\ open' = open \ {"server"} /\ derived' = {}
@@ -351,14 +364,14 @@ StopBegin ==
 \* write buffer): timers of the library come due inside stop()
 StopStallCore ==
   /\ spc = "net" /\ spc' = "netslow"
-  /\ UNCHANGED <<cfg, plan, phase, srv, reason, session, lpc, sent, epi, watchdog, losses, logins, cfails, lastExec>>
+  /\ UNCHANGED <<cfg, plan, parent, lparent, phase, srv, reason, session, lpc, sent, epi, watchdog, losses, logins, cfails, lastExec>>
 StopStall == StopStallCore /\ UNCHANGED ovars
 
 \* the connections are closed, network.disconnect() returns
 StopNetDoneCore ==
   /\ spc \in {"net", "netslow"} /\ spc' = "svc"
   /\ watchdog' = IF FixWatchdogStopped /\ ~FixCancelFirst THEN "off" ELSE watchdog   \* the late cancel
-  /\ UNCHANGED <<cfg, plan, phase, srv, reason, session, lpc, sent, epi, losses, logins, cfails, lastExec>>
+  /\ UNCHANGED <<cfg, plan, parent, lparent, phase, srv, reason, session, lpc, sent, epi, losses, logins, cfails, lastExec>>
 StopNetDone ==
   /\ StopNetDoneCore
   /\ open' = (IF srv = "connected" THEN {"server"} ELSE {}) /\ UNCHANGED <<bg, derived>>
@@ -366,12 +379,12 @@ StopNetDone ==
 \* second stretch: every service's stop(), gather of the cancelled tasks, store_data()
 StopServicesCore ==
   /\ spc = "svc" /\ spc' = "ret"
-  /\ UNCHANGED <<cfg, plan, phase, srv, reason, session, lpc, sent, epi, watchdog, losses, logins, cfails, lastExec>>
+  /\ UNCHANGED <<cfg, plan, parent, lparent, phase, srv, reason, session, lpc, sent, epi, watchdog, losses, logins, cfails, lastExec>>
 StopServices == StopServicesCore /\ bg' = bg \ DiesWithServices /\ UNCHANGED <<open, derived>>
 
 StopReturnCore ==
   /\ spc = "ret" /\ spc' = "done" /\ phase' = "stopped"
-  /\ UNCHANGED <<cfg, plan, srv, reason, session, lpc, sent, epi, watchdog, losses, logins, cfails, lastExec>>
+  /\ UNCHANGED <<cfg, plan, parent, lparent, srv, reason, session, lpc, sent, epi, watchdog, losses, logins, cfails, lastExec>>
 StopReturn == StopReturnCore /\ UNCHANGED ovars
 
 \* environment: something makes the library start a background activity
@@ -400,7 +413,25 @@ PeerIn ==
   /\ open' = open \cup {"peer"}
   /\ UNCHANGED <<mvars, bg, derived>>
 
+\* environment: a potential parent proposed by the server is connected and announces its branch
+\* level / root: the client has a parent (distributed.py:176-203) and tells the server so
+GetParentCore ==
+  /\ "parent" \in Env /\ phase = "started" /\ session /\ srv = "connected" /\ lpc = "idle" /\ ~parent
+  /\ parent' = TRUE
+  /\ UNCHANGED <<cfg, plan, lparent, phase, spc, srv, reason, session, lpc, sent, epi, watchdog, losses, logins, cfails,
+                 lastExec>>
+GetParent == GetParentCore /\ open' = open \cup {"peer"} /\ UNCHANGED <<bg, derived>>
+
+\* environment: the parent's connection closes - with or without a session (distributed.py:231-250)
+ParentDropsCore ==
+  /\ phase = "started" /\ parent /\ lpc = "idle"
+  /\ parent' = FALSE
+  /\ UNCHANGED <<cfg, plan, lparent, phase, spc, srv, reason, session, lpc, sent, epi, watchdog, losses, logins, cfails,
+                 lastExec>>
+ParentDrops == ParentDropsCore /\ UNCHANGED ovars
+
 Next ==
+  \/ GetParent \/ ParentDrops
   \/ Start
   \/ \E m \in LoginModes : Login("user", m) \/ Login("auto", m)
   \/ Advertise \/ BurstEnd
@@ -425,6 +456,7 @@ TypeOK ==
   /\ phase \in {"new", "started", "stopping", "stopped"} /\ spc \in {"none", "net", "netslow", "svc", "ret", "done"}
   /\ srv \in {"none", "connecting", "connected", "closed"}
   /\ reason \in {"none", "requested", "eof", "error", "timeout", "connect_failed"}
+  /\ parent \in BOOLEAN /\ lparent \in BOOLEAN
   /\ session \in BOOLEAN /\ lpc \in {"idle", "auto", "burst"}
   /\ watchdog \in {"off", "idle", "sleeping", "connecting"}
   /\ bg \subseteq (AllBgKinds \cup CoreKinds) /\ open \subseteq (AllPorts \cup {"server", "peer"})
@@ -434,9 +466,10 @@ TypeOK ==
 \* real ones if the scan ended first): that one advertisement is then not judged.
 Judged(S) == IF plan.slow THEN {f \in S : f[1] # "shares"} ELSE S
 \* never told something the settings do not say ...
-AdvertisedOnly == Judged(sent) \subseteq Judged(plan.exp)
+ExpNow == IF lparent THEN {WithParent(f) : f \in plan.exp} ELSE plan.exp
+AdvertisedOnly == Judged(sent) \subseteq Judged(ExpNow)
 \* ... and at the first quiescence after a successful login told everything
-AdvertisedExactly == (session /\ lpc = "idle" /\ srv = "connected") => Judged(sent) = Judged(plan.exp)
+AdvertisedExactly == (session /\ lpc = "idle" /\ srv = "connected") => Judged(sent) = Judged(ExpNow)
 
 NoCommandWithoutSession == lastExec.res # "none" => ((lastExec.res = "refused") <=> ~lastExec.sess)
 
